@@ -336,17 +336,21 @@ inductive Outcome
   | noRows
   | error (e : Err)
 
+/-- what `parse()` does after `read_data`: the `KeyError`s of an observation-free file, then the
+post-processors `_remove_empty_systems`, `_remove_empty_obstype_fields`, `_time_system_correction` -/
+def finish (s : State) : Outcome :=
+  if !s.metaD.has [key "obstypes"] then .error .other
+  else if s.data.time.isEmpty then .noRows
+  else
+    match timeSystemCorrection (removeEmptyObstypeFields (removeEmptySystems s)) with
+    | .ok s' => .ok s'
+    | .error e => .error e
+
 /-- `Rinex3Parser(file, sampling_rate=rate).parse()` -/
 def parseLines (rate : Option Rat) (lines : List Str) : Outcome :=
   match readData headerParser obsParser resetCache lines true 0 { rate := rate } with
   | .error e => .error e
-  | .ok s =>
-    if !s.metaD.has [key "obstypes"] then .error .other
-    else if s.data.time.isEmpty then .noRows
-    else
-      match timeSystemCorrection (removeEmptyObstypeFields (removeEmptySystems s)) with
-      | .ok s' => .ok s'
-      | .error e => .error e
+  | .ok s => finish s
 
 def parseText (rate : Option Rat) (text : Str) : Outcome := parseLines rate (fileLines text)
 
